@@ -18,14 +18,14 @@ pub static PROP: PropDef = PropDef {
            section over the limit, FIN before HEADERS, stream opened and abandoned} (the last two only towards a server), the rest healthy with generated bodies; operations of all streams merged in tape order; the h3 end's streams start with unlimited / zero / small send credit (grants are scheduler moves), so that faults also arrive while a write is blocked; a raw server acts on a request stream as soon as the client opened it; schedule from the tape. \
            oracle: healthy requests: the application sees exactly its own body bytes and end of message, and the bytes h3 wrote back on that stream parse (reference) to exactly HEADERS + DATA(own echo) and FIN; \
            faulty requests: the first error reported on that request, if any, is stream-level with the right code (RemoteTerminate{peer's code} / StreamError H3_MESSAGE_ERROR / HeaderTooBig / StreamError H3_REQUEST_INCOMPLETE) and a fault that must surface does (a STOP_SENDING because of which the transport refused one of h3's writes must have been reported by the end of the run); \
-           connection: zero close calls, the driver never reports an error, every announced request is accepted. non-trivial = >= 1 faulty and >= 1 healthy request whose operations interleave; distinct by (scenario, schedule)",
+           connection: zero close calls, the driver never reports an error, every announced request is accepted, and (client role) one more request started after everything settled is served. non-trivial = >= 1 faulty and >= 1 healthy request whose operations interleave; distinct by (scenario, schedule)",
     assumptions: &["simulated transport, see C01", "a STOP_SENDING that arrives after the endpoint finished writing is not observable: then no error is expected"],
     tape_len: 260,
     random_cases: |t| t.pick(120_000, 6_000_000),
     run_tape,
     exhaustive: Some(exhaustive),
     run_direct: Some(run_direct),
-    min_classes: &[("nontrivial", 5000), ("fault_reset", 3000), ("fault_stop", 3000), ("stop_hit_a_write", 1000), ("fault_malformed", 2000), ("fault_oversized", 2000), ("fault_bad_trailers", 2000), ("fault_fin_before_headers", 1000), ("fault_abandoned", 1000), ("role_client", 5000), ("role_server", 5000), ("healthy_verified", 20000)],
+    min_classes: &[("nontrivial", 5000), ("fault_reset", 3000), ("fault_stop", 3000), ("stop_hit_a_write", 1000), ("fault_malformed", 2000), ("fault_oversized", 2000), ("fault_bad_trailers", 2000), ("follow_up_request_served", 5000), ("fault_fin_before_headers", 1000), ("fault_abandoned", 1000), ("role_client", 5000), ("role_server", 5000), ("healthy_verified", 20000)],
     extra: None,
 };
 
@@ -81,6 +81,8 @@ struct Obs {
     reqs: Vec<ReqObs>,
     driver: Option<ConnInfo>,
     accept_count: u32,
+    /// client role: one more request started after everything else settled: (error of the first failing call | body received)
+    follow_up: Option<Result<Vec<u8>, (String, ErrInfo)>>,
 }
 
 fn note_err(o: &Shared<Obs>, k: usize, call: &str, e: ErrInfo) {
@@ -152,6 +154,8 @@ async fn server_app(net: Net, o: Shared<Obs>, sp: Spawner) {
                     for piece in body.chunks(97.max(body.len() / 3 + 1)) {
                         if let Err(e) = s.send_data(Bytes::copy_from_slice(piece)).await {
                             note_err(&o2, k, "send_data", err_info(&e));
+                            // a careful application still tries to end its side of the stream: that must stay that request's business
+                            let _ = s.finish().await;
                             return;
                         }
                     }
@@ -173,7 +177,7 @@ async fn server_app(net: Net, o: Shared<Obs>, sp: Spawner) {
     drop(conn);
 }
 
-async fn client_app(net: Net, reqs: Vec<Req>, o: Shared<Obs>, sp: Spawner) {
+async fn client_app(net: Net, reqs: Vec<Req>, o: Shared<Obs>, sp: Spawner, go: crate::simnet::exec::Signal) {
     let mut b = h3::client::builder();
     b.send_grease(false).max_field_section_size(LIMIT);
     let Ok((conn, sr)): Result<(ClientConn, SendReq), _> = b.build(net.conn(Side::Client)).await else { return };
@@ -207,6 +211,7 @@ async fn client_app(net: Net, reqs: Vec<Req>, o: Shared<Obs>, sp: Spawner) {
             for piece in body.chunks((body.len() / n).max(1)) {
                 if let Err(e) = s.send_data(Bytes::copy_from_slice(piece)).await {
                     note_err(&o3, k, "send_data", err_info(&e));
+                    let _ = s.finish().await;
                     ok = false;
                     break;
                 }
@@ -245,6 +250,22 @@ async fn client_app(net: Net, reqs: Vec<Req>, o: Shared<Obs>, sp: Spawner) {
             std::future::pending::<()>().await;
         });
     }
+    // the connection must still take new work after the faults: one more request once everything has settled
+    go.wait(0).await;
+    let req = http::Request::builder().method("GET").uri("https://example.com/after").body(()).unwrap();
+    let r: Result<Vec<u8>, (String, ErrInfo)> = async {
+        let mut s = sr.send_request(req).await.map_err(|e| ("send_request".to_string(), err_info(&e)))?;
+        s.finish().await.map_err(|e| ("finish".to_string(), err_info(&e)))?;
+        s.recv_response().await.map_err(|e| ("recv_response".to_string(), err_info(&e)))?;
+        let mut body = Vec::new();
+        while let Some(mut b) = s.recv_data().await.map_err(|e| ("recv_data".to_string(), err_info(&e)))? {
+            let c = b.copy_to_bytes(b.remaining());
+            body.extend_from_slice(&c);
+        }
+        Ok(body)
+    }
+    .await;
+    o.borrow_mut().follow_up = Some(r);
     std::future::pending::<()>().await;
     drop(sr);
 }
@@ -315,10 +336,11 @@ pub fn run_scn(s: &Scn, merge: &mut Tape, sched: &mut Tape, ctx: &mut Ctx) -> Ve
     let o: Shared<Obs> = shared(Obs { reqs: vec![ReqObs::default(); s.reqs.len()], ..Default::default() });
     let mut ex = Exec::new();
     let sp = ex.spawner.clone();
+    let go = crate::simnet::exec::Signal::new();
     if s.server {
         ex.spawn("server", server_app(net.clone(), o.clone(), sp.clone()));
     } else {
-        ex.spawn("client", client_app(net.clone(), s.reqs.clone(), o.clone(), sp.clone()));
+        ex.spawn("client", client_app(net.clone(), s.reqs.clone(), o.clone(), sp.clone(), go.clone()));
     }
     // per request op lists
     let mut lists: Vec<std::collections::VecDeque<PeerOp>> = Vec::new();
@@ -398,7 +420,15 @@ pub fn run_scn(s: &Scn, merge: &mut Tape, sched: &mut Tape, ctx: &mut Ctx) -> Ve
     if switches >= s.reqs.len() {
         interleaved = true;
     }
+    if !s.server {
+        // the follow-up request: the raw server answers it with a small body
+        let key = s.reqs.len() + 1;
+        let mut resp = peer::simple_response_headers("200");
+        resp.extend(peer::data_frame(b"still alive"));
+        ops.extend([PeerOp::Barrier, PeerOp::Signal(0), PeerOp::AdoptOpen(key, 4 * s.reqs.len() as u64), PeerOp::Write(key, resp), PeerOp::Fin(key)]);
+    }
     let mut peer = RawPeer::new(raw, ops);
+    peer.signals.push(go.clone());
     peer.net = Some(net.clone());
     let end = ex.run(&net, &mut peer, sched, s.style, 400_000);
     let obs = o.borrow().clone();
@@ -526,6 +556,12 @@ pub fn run_scn(s: &Scn, merge: &mut Tape, sched: &mut Tape, ctx: &mut Ctx) -> Ve
             }
         }
     }
+    if !s.server {
+        match &obs.follow_up {
+            Some(Ok(b)) if b == b"still alive" => ctx.class("follow_up_request_served"),
+            other => return fail(format!("after the stream-scoped faults the connection must still carry a new request; the follow-up request: {other:?}")),
+        }
+    }
     let faulty = s.reqs.iter().filter(|r| r.fault != Fault::None).count();
     let healthy = s.reqs.len() - faulty;
     ctx.class(if s.server { "role_server" } else { "role_client" });
@@ -538,7 +574,7 @@ pub fn run_scn(s: &Scn, merge: &mut Tape, sched: &mut Tape, ctx: &mut Ctx) -> Ve
 }
 
 fn gen_fault(t: &mut Tape, server: bool, msg_len_hint: usize) -> Fault {
-    let codes = [0x10cu64, 0x100, 0, 0x101, 0x33, 0xdead_beef, (1 << 62) - 1];
+    let codes = [0x10cu64, 0x100, 0x10b, 0, 0x101, 0x10d, 0x33, 0xdead_beef, (1 << 62) - 1];
     match t.pick(if server { 8 } else { 6 }) {
         0 => Fault::None,
         5 if !server => Fault::BadTrailers(t.pick(4) as u8),
@@ -583,10 +619,10 @@ fn gen(t: &mut Tape) -> Scn {
 
 fn exhaustive(ctx: &mut Ctx, shard: usize, nshards: usize) -> Verdict {
     // every (fault kind x victim subset) for 2..3 requests, both roles
-    let faults_server = [Fault::Reset { code: 0x10c, offset: 0 }, Fault::Reset { code: 0x77, offset: 5 }, Fault::Reset { code: 0x10c, offset: 40 }, Fault::Reset { code: 0x10c, offset: 100_000 }, Fault::Stop { code: 0x10c, after_ops: 0 }, Fault::Stop { code: 0x99, after_ops: 2 }, Fault::Stop { code: 0x10c, after_ops: 9 }, Fault::Stop { code: 0x100, after_ops: 1 }, Fault::Reset { code: 0x100, offset: 30 }, Fault::Malformed, Fault::Oversized, Fault::BadTrailers(0), Fault::BadTrailers(1), Fault::BadTrailers(2), Fault::BadTrailers(3), Fault::FinBeforeHeaders, Fault::Abandoned];
+    let faults_server = [Fault::Reset { code: 0x10c, offset: 0 }, Fault::Reset { code: 0x77, offset: 5 }, Fault::Reset { code: 0x10c, offset: 40 }, Fault::Reset { code: 0x10c, offset: 100_000 }, Fault::Stop { code: 0x10c, after_ops: 0 }, Fault::Stop { code: 0x99, after_ops: 2 }, Fault::Stop { code: 0x10c, after_ops: 9 }, Fault::Stop { code: 0x100, after_ops: 1 }, Fault::Reset { code: 0x100, offset: 30 }, Fault::Stop { code: 0x10b, after_ops: 0 }, Fault::Reset { code: 0x10b, offset: 30 }, Fault::Malformed, Fault::Oversized, Fault::BadTrailers(0), Fault::BadTrailers(1), Fault::BadTrailers(2), Fault::BadTrailers(3), Fault::FinBeforeHeaders, Fault::Abandoned];
     let mut idx = 0usize;
     for server in [true, false] {
-        let faults: &[Fault] = if server { &faults_server } else { &faults_server[..15] };
+        let faults: &[Fault] = if server { &faults_server } else { &faults_server[..17] };
         for n in 2..=3usize {
             for subset in 1..(1u32 << n) {
                 for f in faults {
